@@ -438,7 +438,9 @@ MonthDayOutcome(R) ==
   ELSE IF R.form = "md" /\ ~IsIso(R) THEN Reject("non-iso-calendar-on-month-day-string")
   ELSE IF CalStatus(R) = "alias" THEN Unasserted("calendar-alias")
   ELSE IF CalStatus(R) = "unknown" THEN Reject("unknown-calendar")
-  ELSE IF R.form = "dt" /\ ~InDateRange(DFC(R.date)) THEN Unasserted("month-day-from-date-outside-limits")
+  \* ISO calendar: the year of a full date is dropped (reference year 1972), so the date need not lie within the limits of a
+  \* PlainDate (ToTemporalMonthDay checks ISODateWithinLimits only on the non-ISO path); for other calendars nothing is asserted there
+  ELSE IF R.form = "dt" /\ ~IsIso(R) /\ ~InDateRange(DFC(R.date)) THEN Unasserted("month-day-from-date-outside-limits")
   ELSE IF ~IsIso(R) THEN AcceptNoVal("full-date-with-non-iso-calendar")
   ELSE Accept([m |-> R.date.m, d |-> R.date.d, cal |-> "iso8601"])
 InstantOutcome(R) ==
